@@ -22,9 +22,11 @@ for fn in sorted(glob.glob("/verif/equivalents/*.json" if args.equiv else "/veri
 
 def run(m):
     src = open(os.path.join("/repo", m["file"])).read()
-    if src.count(m["old"]) != m.get("count", 1):
-        return (m, "SKIP", "pattern occurs %d times (want %d)" % (src.count(m["old"]), m.get("count", 1)))
-    new = src.replace(m["old"], m["new"])
+    new = src
+    for e in m.get("edits") or [m]:
+        if new.count(e["old"]) != e.get("count", 1):
+            return (m, "SKIP", "pattern occurs %d times (want %d)" % (new.count(e["old"]), e.get("count", 1)))
+        new = new.replace(e["old"], e["new"])
     with tempfile.TemporaryDirectory() as td:
         fp = os.path.join(td, "mut.go")
         open(fp, "w").write(new)
